@@ -59,24 +59,25 @@ func (l liveJWKS) Get(context.Context, *oidcv1.OIDCConfig) (jwk.Set, error) {
 
 // WorldOpts are the knobs of a simulated deployment with one OIDC filter.
 type WorldOpts struct {
-	Store        string // "memory" | "redis"
-	AccessToken  bool
-	Logout       bool
-	Discovery    bool
-	CookiePrefix string
-	ClientID     string
-	ClientSecret string
-	Scopes       []string
-	Abs, Idle    time.Duration
-	IDHeader     string
-	IDPreamble   string
-	ATHeader     string
-	ATPreamble   string
-	CallbackURI  string
-	AppHost      string
-	ViaServer    bool // go through server.ExtAuthZFilter.Check (real clock, real generator)
-	RealFactory  bool // with ViaServer: stores come from oidc.NewSessionStoreFactory(cfg).PreRun(), as in cmd/main.go
-	Binary       bool // run the built service binary (cmd/main.go) as a child process and talk gRPC to it
+	Store          string // "memory" | "redis"
+	AccessToken    bool
+	Logout         bool
+	Discovery      bool
+	CookiePrefix   string
+	ClientID       string
+	ClientSecret   string
+	Scopes         []string
+	Abs, Idle      time.Duration
+	IDHeader       string
+	IDPreamble     string
+	ATHeader       string
+	ATPreamble     string
+	CallbackURI    string
+	AppHost        string
+	ViaServer      bool   // go through server.ExtAuthZFilter.Check (real clock, real generator)
+	RealFactory    bool   // with ViaServer: stores come from oidc.NewSessionStoreFactory(cfg).PreRun(), as in cmd/main.go
+	BinaryLogLevel string // with Binary: log_level of the service process ("" = error)
+	Binary         bool   // run the built service binary (cmd/main.go) as a child process and talk gRPC to it
 	// DiscoveryExplicit (with Discovery): the endpoints are spelled out as well and the keys come from jwks_fetcher
 	DiscoveryExplicit bool
 	// JwksFetchSec > 0 (without Discovery): keys come from jwks_fetcher at the provider's JWKS endpoint, refreshed at
@@ -238,6 +239,13 @@ func NewWorld(c *Case, o WorldOpts) *World {
 	}
 	w.Store = &SpyStore{Inner: inner, Now: nowFn}
 	w.Store.Intercept = func(op, id string) string { return w.intercept("store", op, id) }
+	w.Store.Unfire = func() {
+		w.mu.Lock()
+		if n := len(w.Fired); n > 0 {
+			w.Fired = w.Fired[:n-1]
+		}
+		w.mu.Unlock()
+	}
 
 	ctx, cancel := context.WithCancel(context.Background())
 	w.cancel = cancel
@@ -262,11 +270,16 @@ func NewWorld(c *Case, o WorldOpts) *World {
 			Match:   &configv1.Match{Header: "x-neighbour", Criteria: &configv1.Match_Equality{Equality: "yes"}},
 			Filters: []*configv1.Filter{{Type: &configv1.Filter_Oidc{Oidc: ncfg}}}}}, full.Chains...)
 	}
+	// as in cmd/main.go every component is built around the configuration object before that is filled in
+	complete := full
+	full, fill := LateConfig(complete)
 	w.Full = full
 	prov := oidc.NewJWKSProvider(full, w.TLS)
-	if o.Discovery || o.JwksFetchSec > 0 {
-		// discovery switches the filter to the JWKS fetcher, which needs the provider's service loop
-		go func() { _ = prov.ServeContext(ctx) }()
+	startProv := func() {
+		if o.Discovery || o.JwksFetchSec > 0 {
+			// discovery switches the filter to the JWKS fetcher, which needs the provider's service loop
+			go func() { _ = prov.ServeContext(ctx) }()
+		}
 	}
 	w.JWKS = &SpyJWKS{Inner: prov}
 	if o.LiveJWKS {
@@ -279,7 +292,10 @@ func NewWorld(c *Case, o WorldOpts) *World {
 			mr, _ := Redis()
 			cfg.RedisSessionStoreConfig.ServerUri = "redis://" + mr.Addr()
 		}
-		svc, err := StartService(full)
+		fill()
+		startProv()
+		complete.LogLevel = o.BinaryLogLevel
+		svc, err := StartService(complete)
 		if err != nil {
 			panic(err)
 		}
@@ -290,13 +306,20 @@ func NewWorld(c *Case, o WorldOpts) *World {
 			cfg.RedisSessionStoreConfig.ServerUri = "redis://" + mr.Addr()
 		}
 		fac := oidc.NewSessionStoreFactory(full)
+		w.Factory = fac
+		w.Filter = server.NewExtAuthZFilter(full, w.TLS, w.JWKS, fac)
+		fill()
+		startProv()
 		if err := fac.PreRun(); err != nil {
 			panic(err)
 		}
-		w.Factory = fac
-		w.Filter = server.NewExtAuthZFilter(full, w.TLS, w.JWKS, fac)
 	} else if o.ViaServer {
 		w.Filter = server.NewExtAuthZFilter(full, w.TLS, w.JWKS, FixedFactory{w.Store})
+		fill()
+		startProv()
+	} else {
+		fill()
+		startProv()
 	}
 	return w
 }
@@ -332,7 +355,7 @@ func (w *World) intercept(kind, op, id string) string {
 	p := w.pos
 	w.pos++
 	if m, ok := w.Faults[p]; ok {
-		if m == "redis" && kind != "store" {
+		if strings.HasPrefix(m, "redis") && kind != "store" {
 			m = "before" // an outage below the store only means something for store calls
 		}
 		w.Fired = append(w.Fired, Fired{Pos: p, Kind: kind, Op: op, Mode: m})
